@@ -47,3 +47,21 @@ def cargo_env(target_name):
     env["CARGO_TARGET_DIR"] = os.path.join(CACHE, target_name)
     os.makedirs(env["CARGO_TARGET_DIR"], exist_ok=True)
     return env
+
+
+import contextlib, fcntl
+
+
+@contextlib.contextmanager
+def cargo_lock(target_name):
+    """one cargo invocation at a time per shared target directory, also across concurrently running checks"""
+    os.makedirs(CACHE, exist_ok=True)
+    f = open(os.path.join(CACHE, target_name + ".lock"), "w")
+    try:
+        fcntl.flock(f, fcntl.LOCK_EX)
+        yield
+    finally:
+        try:
+            fcntl.flock(f, fcntl.LOCK_UN)
+        finally:
+            f.close()
